@@ -495,11 +495,30 @@ def record_isum(ctx, conn, entries, rng, dates, out, prices=None):
     for _ in range(rng.choice((0, 0, 1, 2))):
         rows.insert(rng.randint(0, len(rows)), (rng.randint(1, len(gids) + 1), rng.choice((None, inventory.Inventory()))))
     before = [(g, hb.proj_inventory(v)) for g, v in rows]          # fresh dictionaries: the table as defined
-    fs = list(ISUM_FS_PLAIN)
-    if prices is not None:
-        fs += [('value', '', 0), ('value', '', rng.choice(dates)), ('convert', 'USD', 0), ('convert', 'CAD', 0),
-               ('convert', 'CAD', rng.choice(dates))]
-    fs = [list(f) for f in fs]
+    # the scale and the domain of the operators are fixed by the table and the prices, before anything runs: sums need
+    # no more decimal places than their terms; cost / value / convert multiply, which must stay exact in 32 bits --
+    # otherwise only units() (no multiplication) is applied in this history
+    try:
+        k = max([0] + [hb.inv_places(v) for _, v in before if v] + ([hb.places(p[3]) for p in prices] if prices else []))
+        sc = 10 ** k
+        jtab = [[g, v is None, hb.json_inventory(v, sc) if v else []] for g, v in before]
+        jprices = [[b, q, d, hb.scaled_int(r, sc)] for b, q, d, r in (prices or [])]
+        lots = {}
+        for _, v in before:
+            for key, num in (v or {}).items():
+                lots[key] = lots.get(key, 0) + abs(num)
+        # exactness is decided cell by cell (and is then inherited by every sum), magnitude by the absolute totals
+        allpos = [hb.json_position((key, num), sc) for key, num in lots.items()]
+        allpos += [p for _, _, inv in jtab for p in inv]
+    except hb.OutOfDomain:
+        ctx.skipped += 1
+        return
+    fs = [list(ISUM_FS_PLAIN[0])]
+    if mul_in_domain(allpos, jprices, sc):
+        fs.append(list(ISUM_FS_PLAIN[1]))
+        if prices is not None:
+            fs += [['value', '', 0], ['value', '', rng.choice(dates)], ['convert', 'USD', 0], ['convert', 'CAD', 0],
+                   ['convert', 'CAD', rng.choice(dates)]]
     sess = ss.Session([conn] + ([hb.connect(entries)] if rng.random() < 0.25 else []), ss.make_table(rows))
     hist = []
     for n in range(rng.randint(2, 4)):
@@ -512,34 +531,18 @@ def record_isum(ctx, conn, entries, rng, dates, out, prices=None):
             return
         hist.append((s, got))
         ctx.case('isum:%s:%d:%d' % (ss.stmt_text(s), len(rows), n))
+    if any(v is None for _, got in hist for _, vals in got for v in vals):
+        ctx.violation('sum:inventory:null', 'an aggregate over inventories returned NULL',
+                      {'statements': [ss.stmt_text(s) for s, _ in hist]}, 'C2S')
+        return
     try:
-        if any(v is None for _, got in hist for _, vals in got for v in vals):
-            raise hb.OutOfDomain('NULL aggregate')       # reported below
-        k = max([0] + [hb.inv_places(v) for _, v in before if v] + [hb.inv_places(v) for _, got in hist for _, vals in got
-                                                                   for v in vals]
-                + ([hb.places(p[3]) for p in prices] if prices else []))
-        sc = 10 ** k
-        jtab = [[g, v is None, hb.json_inventory(v, sc) if v else []] for g, v in before]
-        jprices = [[b, q, d, hb.scaled_int(r, sc)] for b, q, d, r in (prices or [])]
-        # the operators are applied to every cell and to every (partial) sum: all lots, with the absolute total
-        lots = {}
-        for _, v in before:
-            for key, num in (v or {}).items():
-                lots[key] = lots.get(key, 0) + abs(num)
-        allpos = [hb.json_position((key, num), sc) for key, num in lots.items()]
-        if not mul_in_domain(allpos, jprices, sc):
-            ctx.skipped += 1
-            return
         stmts = [{'nodes': s['nodes'], 'grouped': s['grouped'], 'having': s['having'],
                   'rows': [[key, [hb.json_inventory(v, sc) for v in vals]] for key, vals in got]} for s, got in hist]
-        line = {'k': 'isum', 'id': len(out) + 1, 'sc': sc, 'prices': jprices, 'tab': jtab, 'stmts': stmts}
-    except hb.OutOfDomain as ex:
-        if 'NULL aggregate' in str(ex):
-            ctx.violation('sum:inventory:null', 'an aggregate over inventories returned NULL',
-                          {'statements': [ss.stmt_text(s) for s, _ in hist]}, 'C2S')
-        else:
-            ctx.skipped += 1
+    except hb.OutOfDomain:
+        ctx.skipped += 1            # a returned number is not representable at the table's scale / in 32 bits
         return
+    line = {'k': 'isum', 'id': len(out) + 1, 'sc': sc, 'prices': jprices, 'tab': jtab, 'stmts': stmts,
+            'ops': len(fs)}
     line['_text'] = ' ; '.join(ss.stmt_text(s) for s, _ in hist)
     out.append(line)
 
@@ -571,6 +574,7 @@ def validate_isum(ctx, lines):
     probe_lines = set(range(len(lines) + 1, len(lines) + len(probes) + 1))
     if not probes or not probe_lines <= set(rejected):
         raise MachineryError('binding self-test: the corrupted inventory-sum line was not rejected')
+    ctx.leg('C2S', corrupted_lines_rejected=len(probe_lines))
     nrej = 0
     for n, rj in sorted(rejected.items()):
         if n in probe_lines:
@@ -724,12 +728,17 @@ def run(ctx):
     ctx.rule = ('S2C: one case = one TLC-simulated (ledger <= 5 postings over 7 lots x 7 numbers, row filter, 2 groups, '
                 'conjunct list, target list with 0..3 balance references, interposed subquery with/without balance, price '
                 'table), distinct by its JSON; non-trivial = at least one posting.  C2S: one line = one statement family on '
-                'a window of the Beancount example ledger or a seeded random ledger; distinct by statement and data')
+                'a window of the Beancount example ledger or a seeded random ledger; distinct by statement and data; one '
+                'evaluation per statement executed over a sub-select of partial sums or over a table holding inventories '
+                '(S2C: chunks of the generated ledger; C2S: per-transaction inventories, history of 2..4 statements)')
     ctx.assumptions += [
         'numbers: integers in the specification; the driver scales units by 1, 10 or 100 (all four functions are linear '
         'in the units); trace files carry integers in minor units, cases needing |n| >= 2^31 are skipped and counted',
         'value / convert: only forward price pairs are looked up in generated cases (Beancount also synthesises inverse '
         'rates; those are outside the transcription)',
+        'tables holding inventories: the expected result of every statement of a history is computed from the table as '
+        'the driver defined it (recorded before anything runs): a SELECT that changes the values stored in a user table is '
+        'counted as a wrong sum of "the group\'s values" from the next statement on',
         'TLC 1.8 with Json/IOUtils, CPython 3.12, Beancount 3.x Inventory / convert / prices as the meaning of "Beancount '
         'inventory sum"; harness/balance.py (projection) is trusted',
     ]
@@ -753,7 +762,11 @@ def run(ctx):
     if res.violated:
         ctx.violation('spec:sumstore:' + ','.join(res.violated), 'TLC violates the property on the property-conforming '
                       'aggregate mechanism', {'behaviour': res.behaviour[:3000]}, 'MC')
-    ctx.tlc('MC_SumStore', 'MC_SumStore_adopt.cfg', leg='MC-nonvacuity', expect_violation='ResultInv', workers=4)
+    r2 = ctx.tlc('MC_SumStore', 'MC_SumStore_adopt.cfg', leg='MC-nonvacuity', expect_violation='ResultInv', workers=4)
+    if not ctx.quick:
+        ctx.tlc('MC_SumStore', 'MC_SumStore_adopt_hist.cfg', leg='MC-nonvacuity', expect_violation='ResultInv', workers=4)
+    ctx.leg('MC', adopt_counterexample='two sum(inv) nodes share the adopted first cell: the second row is added twice'
+            if 'slots |-> <<1, 1>>' in r2.behaviour else 'see the behaviour reported by TLC')
     # ---- S2C
     ncases = ctx.pick(1000, 16000)
     w = 8
